@@ -1,4 +1,352 @@
-/-! placeholder, replaced by the encoder LTS theorems -/
-namespace CentrifugeVerif.C11Stub
-theorem stub : True := trivial
-end CentrifugeVerif.C11Stub
+import CentrifugeVerif.Model.ConnProtoEncoder
+/-!
+# C11 — the connect reply is the first server message; dictionary encoder discipline
+
+Model: `Model/ConnProtoEncoder.lean`.  Statements quantify over all label sequences (all
+interleavings of the connect thread with pushes routed through the hub; of the queue writer,
+direct `ReplyWithoutQueue` writes and `close`).
+
+The full statement "no push precedes the connect reply" is **false** for the code and for the
+model (`push_can_precede_connect_reply`, finding C11-1); what holds is stated in
+`connect_reply_first_partial`.  Likewise "the encoder is never closed concurrently with an Encode"
+holds only without `ReplyWithoutQueue` (`encoder_discipline_partial`, counter-witness
+`rwq_close_overlaps_encode`, finding C11-2).
+-/
+namespace CentrifugeVerif.ConnProtoEncoder
+
+/-! ## (a) connect reply first -/
+
+def Frame.encoded : Frame → Bool
+  | .connectReply e => e
+  | .push e => e
+
+/-- shape of the frame log: nothing before `addClient`; with a dictionary the first frame is raw
+and promotes the encoder, every later frame is encoded; without one everything is raw. -/
+def CInv (s : CSt) : Prop :=
+  (s.inHub = false → s.frames = [] ∧ s.replyWritten = false) ∧
+  (s.frames = [] → s.promoted = false) ∧
+  (s.dict = false → s.promoted = false ∧ ∀ f ∈ s.frames, f.encoded = false) ∧
+  (s.dict = true → ∀ f t, s.frames = f :: t → s.promoted = true ∧ f.encoded = false ∧ ∀ g ∈ t, g.encoded = true) ∧
+  (s.replyWritten = false → ∀ e, Frame.connectReply e ∉ s.frames)
+
+theorem write_inv (s : CSt) (mk : Bool → Frame) (hmk : ∀ b, (mk b).encoded = b)
+    (h : CInv s) (hin : s.inHub = true) (hnr : ∀ e, mk true ≠ Frame.connectReply e ∨ s.replyWritten = false) :
+    let s' := write s mk
+    (s'.frames = [] → s'.promoted = false) ∧
+    (s'.dict = false → s'.promoted = false ∧ ∀ f ∈ s'.frames, f.encoded = false) ∧
+    (s'.dict = true → ∀ f t, s'.frames = f :: t → s'.promoted = true ∧ f.encoded = false ∧ ∀ g ∈ t, g.encoded = true) := by
+  obtain ⟨_, h2, h3, h4, _⟩ := h
+  unfold write
+  by_cases hp : s.promoted = true
+  · simp only [hp, if_true]
+    refine ⟨by simp, ?_, ?_⟩
+    · intro hd; have := (h3 hd).1; simp [hp] at this
+    · intro hd f t hft
+      cases hfr : s.frames with
+      | nil => have := h2 hfr; simp [hp] at this
+      | cons a l =>
+        obtain ⟨_, ha, hl⟩ := h4 hd a l hfr
+        simp [hfr] at hft
+        obtain ⟨rfl, rfl⟩ := hft
+        refine ⟨by first | trivial | exact hp, ha, ?_⟩
+        intro g hg
+        simp at hg
+        rcases hg with hg | hg
+        · exact hl g hg
+        · subst hg; exact hmk true
+  · simp only [hp]
+    refine ⟨by simp, ?_, ?_⟩
+    · intro hd
+      simp at hd
+      refine ⟨by simp [hd], ?_⟩
+      intro f hf
+      simp at hf
+      rcases hf with hf | hf
+      · exact (h3 hd).2 f hf
+      · subst hf; exact hmk false
+    · intro hd f t hft
+      simp at hd
+      cases hfr : s.frames with
+      | nil =>
+        simp [hfr] at hft
+        obtain ⟨rfl, rfl⟩ := hft
+        exact ⟨by simp [hd], hmk false, by simp⟩
+      | cons a l =>
+        have := (h4 hd a l hfr).1
+        exact absurd this hp
+
+theorem cstep_inv (s s' : CSt) (l : CLabel) (h : CInv s) (hs : cstep s l = some s') : CInv s' := by
+  cases l with
+  | addClient =>
+    simp only [cstep] at hs
+    split at hs
+    · cases hs
+    · cases hs
+      obtain ⟨h1, h2, h3, h4, h5⟩ := h
+      rename_i hin
+      simp at hin
+      exact ⟨by simp, h2, h3, h4, h5⟩
+  | writeReply =>
+    simp only [cstep] at hs
+    split at hs
+    · rename_i hc
+      simp at hc
+      cases hs
+      have hw := write_inv s .connectReply (by intro b; rfl) h hc.1 (by intro e; right; exact hc.2)
+      have hdict : (write s .connectReply).dict = s.dict := by unfold write; split <;> rfl
+      have hhub : (write s .connectReply).inHub = s.inHub := by unfold write; split <;> rfl
+      refine ⟨by simp [hhub, hc.1], hw.1, ?_, ?_, by simp⟩
+      · simpa [hdict] using hw.2.1
+      · simpa [hdict] using hw.2.2
+    · cases hs
+  | push =>
+    simp only [cstep] at hs
+    split at hs
+    · rename_i hc
+      cases hs
+      have hw := write_inv s .push (by intro b; rfl) h hc (by intro e; left; simp)
+      have hrw : (write s .push).replyWritten = s.replyWritten := by unfold write; split <;> rfl
+      have hhub : (write s .push).inHub = s.inHub := by unfold write; split <;> rfl
+      refine ⟨by simp [hhub, hc], hw.1, hw.2.1, hw.2.2, ?_⟩
+      intro hr e
+      rw [hrw] at hr
+      have := h.2.2.2.2 hr e
+      unfold write
+      split <;> simp [this]
+    · cases hs
+
+theorem crun_inv : ∀ (ls : List CLabel) (s s' : CSt), CInv s → crun s ls = some s' → CInv s'
+  | [], s, s', h, hr => by simp [crun] at hr; subst hr; exact h
+  | l :: ls, s, s', h, hr => by
+    simp only [crun] at hr
+    split at hr
+    · rename_i s1 h1; exact crun_inv ls s1 s' (cstep_inv s s1 l h h1) hr
+    · cases hr
+
+theorem cinv_init (d : Bool) : CInv { dict := d } := by
+  refine ⟨by simp, by simp, by simp, by simp, by simp⟩
+
+/-- nothing reaches the transport before `addClient`: a client that is not registered in the hub
+has an empty frame log, whatever the other threads do. -/
+theorem no_frame_before_addClient (d : Bool) (ls : List CLabel) (s : CSt)
+    (hr : crun { dict := d } ls = some s) (hh : s.inHub = false) : s.frames = [] :=
+  ((crun_inv ls _ s (cinv_init d) hr).1 hh).1
+
+/-- `connect_reply_first_partial`: in every interleaving, the connect reply is the first frame
+**provided no push is routed to the client between `addClient` and the reply write** (i.e. the
+reply write is the first step after `addClient`); then it goes out unencoded and, when a
+dictionary was negotiated, every later frame is encoded.
+(The unconditional statement is false: `push_can_precede_connect_reply`.) -/
+theorem connect_reply_first_partial (d : Bool) (rest : List CLabel) (s : CSt)
+    (hr : crun { dict := d } (.addClient :: .writeReply :: rest) = some s) :
+    ∃ t, s.frames = Frame.connectReply false :: t ∧ (d = true → ∀ g ∈ t, g.encoded = true) ∧
+      (d = false → ∀ g ∈ t, g.encoded = false) := by
+  -- after the two steps the log is exactly [connectReply false]
+  have h2 : crun { dict := d } [.addClient, .writeReply] =
+      some { dict := d, inHub := true, replyWritten := true, promoted := d, frames := [.connectReply false] } := by
+    cases d <;> rfl
+  have hsplit : crun { dict := d } (.addClient :: .writeReply :: rest) =
+      crun { dict := d, inHub := true, replyWritten := true, promoted := d, frames := [.connectReply false] } rest := by
+    cases d <;> rfl
+  rw [hsplit] at hr
+  -- frames only grow by appending; use the shape invariant on the final state
+  have hpre : ∀ (ls : List CLabel) (a b : CSt), crun a ls = some b → ∃ t, b.frames = a.frames ++ t ∧ b.dict = a.dict := by
+    intro ls
+    induction ls with
+    | nil => intro a b h; simp [crun] at h; subst h; exact ⟨[], by simp, rfl⟩
+    | cons l ls ih =>
+      intro a b h
+      simp only [crun] at h
+      split at h
+      · rename_i a1 h1
+        obtain ⟨t, ht, hd⟩ := ih a1 b h
+        have : ∃ u, a1.frames = a.frames ++ u ∧ a1.dict = a.dict := by
+          cases l <;> simp only [cstep] at h1 <;> split at h1 <;> cases h1
+          · exact ⟨[], by simp, rfl⟩
+          · unfold write; split <;> exact ⟨_, rfl, rfl⟩
+          · unfold write; split <;> exact ⟨_, rfl, rfl⟩
+        obtain ⟨u, hu, hd1⟩ := this
+        exact ⟨u ++ t, by rw [ht, hu, List.append_assoc], by rw [hd, hd1]⟩
+      · cases h
+  obtain ⟨t, ht, hd⟩ := hpre rest _ s hr
+  have hinv := crun_inv rest _ s (by
+    refine ⟨by simp, by simp, ?_, ?_, by simp⟩
+    · intro hd'; simp at hd'; subst hd'; simp [Frame.encoded]
+    · intro hd' f t hft; simp at hd' hft; subst hd'; obtain ⟨rfl, rfl⟩ := hft; simp [Frame.encoded]) hr
+  simp at ht hd
+  refine ⟨t, ht, ?_, ?_⟩
+  · intro hdt
+    have := hinv.2.2.2.1 (by rw [hd]; exact hdt) _ _ ht
+    exact this.2.2
+  · intro hdf
+    have := (hinv.2.2.1 (by rw [hd]; exact hdf)).2
+    intro g hg
+    exact this g (by rw [ht]; simp [hg])
+
+/-- in every reachable state with a negotiated dictionary, the connect reply is unencoded exactly
+when it is the first frame on the wire -/
+theorem connect_reply_raw_iff_first (ls : List CLabel) (s : CSt)
+    (hr : crun { dict := true } ls = some s) (hm : ∃ e, Frame.connectReply e ∈ s.frames) :
+    (Frame.connectReply false ∈ s.frames ↔ s.frames.head? = some (Frame.connectReply false)) := by
+  have hinv := crun_inv ls _ s (cinv_init true) hr
+  have hpre : s.dict = true := by
+    have : ∀ (ls : List CLabel) (a b : CSt), crun a ls = some b → b.dict = a.dict := by
+      intro ls
+      induction ls with
+      | nil => intro a b h; simp [crun] at h; subst h; rfl
+      | cons l ls ih =>
+        intro a b h
+        simp only [crun] at h
+        split at h
+        · rename_i a1 h1
+          rw [ih a1 b h]
+          cases l <;> simp only [cstep] at h1 <;> split at h1 <;> cases h1
+          · rfl
+          · unfold write; split <;> rfl
+          · unfold write; split <;> rfl
+        · cases h
+    exact this ls _ s hr
+  cases hfr : s.frames with
+  | nil => obtain ⟨e, he⟩ := hm; simp [hfr] at he
+  | cons f t =>
+    obtain ⟨_, hf, ht⟩ := hinv.2.2.2.1 hpre f t hfr
+    constructor
+    · intro hmem
+      simp at hmem
+      rcases hmem with h | h
+      · simp [h]
+      · have := ht _ h; simp [Frame.encoded] at this
+    · intro hh; simp at hh; simp [hh]
+
+/-- counter-witness (finding C11-1): a push routed through the hub after `addClient` precedes the
+connect reply, and with a dictionary the reply is then the frame that gets encoded -/
+theorem push_can_precede_connect_reply :
+    crun { dict := true } [.addClient, .push, .writeReply] =
+      some { dict := true, inHub := true, replyWritten := true, promoted := true,
+             frames := [.push false, .connectReply true] } := by decide
+
+/-! ## (b) encoder discipline -/
+
+/-- the encoder is closed at most once, whatever the interleaving and the write mode -/
+def EInv1 (s : ESt) : Prop :=
+  s.closes = (if s.closer = .encoderClosed ∨ s.closer = .done then 1 else 0) ∧
+  (s.installed = true ↔ (s.closer = .idle ∨ s.closer = .writerClosed))
+
+theorem estep_inv1 (s s' : ESt) (l : ELabel) (h : EInv1 s) (hs : estep s l = some s') : EInv1 s' := by
+  obtain ⟨h1, h2⟩ := h
+  cases l <;> simp only [estep] at hs <;> split at hs <;> cases hs <;> simp_all [EInv1]
+
+theorem erun_inv1 : ∀ (ls : List ELabel) (s s' : ESt), EInv1 s → erun s ls = some s' → EInv1 s'
+  | [], s, s', h, hr => by simp [erun] at hr; subst hr; exact h
+  | l :: ls, s, s', h, hr => by
+    simp only [erun] at hr
+    split at hr
+    · rename_i s1 h1; exact erun_inv1 ls s1 s' (estep_inv1 s s1 l h h1) hr
+    · cases hr
+
+theorem encoder_closed_at_most_once (rwq : Bool) (ls : List ELabel) (s : ESt)
+    (hr : erun { rwq := rwq } ls = some s) :
+    s.closes ≤ 1 ∧ (s.closer = .done → s.closes = 1) := by
+  have h := erun_inv1 ls _ s (by simp [EInv1]) hr
+  constructor
+  · rw [h.1]; split <;> omega
+  · intro hd; rw [h.1]; simp [hd]
+
+/-- without `ReplyWithoutQueue`: all writes go through the queue writer, which holds `w.mu`
+while it writes; `close` takes `w.mu` before it closes the encoder -/
+def EInvQ (s : ESt) : Prop :=
+  s.rwq = false ∧ s.dw = .idle ∧ s.violated = false ∧
+  s.inFlight = (if s.qw = .encoding then 1 else 0) ∧
+  (s.closer ≠ .idle → s.qw = .idle ∧ s.writerClosed = true) ∧
+  (s.closes > 0 → s.closer = .encoderClosed ∨ s.closer = .done) ∧
+  (s.installed = true ↔ (s.closer = .idle ∨ s.closer = .writerClosed))
+
+theorem estep_invQ (s s' : ESt) (l : ELabel) (h : EInvQ s) (hs : estep s l = some s') : EInvQ s' := by
+  obtain ⟨h1, h2, h3, h4, h5, h6, h7⟩ := h
+  cases l <;> simp only [estep] at hs <;> split at hs <;> cases hs
+  all_goals (rename_i hc; try simp at hc)
+  · -- qLock
+    refine ⟨h1, h2, h3, ?_, ?_, h6, h7⟩
+    · simp [hc.1] at h4; simpa using h4
+    · intro hne; have := h5 hne; simp [this.2] at hc
+  · -- qBegin
+    have hidle : s.closer = .idle := by
+      by_cases hci : s.closer = .idle
+      · exact hci
+      · have := (h5 hci).1; simp [this] at hc
+    have hq : s.qw = .locked := hc.1.1
+    have hnc : ¬ s.closes > 0 := by intro hp; rcases h6 hp with h | h <;> simp [hidle] at h
+    have h4' : s.inFlight = 0 := by simp [hq] at h4; exact h4
+    refine ⟨h1, h2, ?_, ?_, ?_, ?_, h7⟩
+    · have : s.closes = 0 := by omega
+      simp [h3, this]
+    · simp [h4']
+    · intro hne; exact absurd hidle hne
+    · intro hp; exact absurd hp hnc
+  · -- qEnd
+    refine ⟨h1, h2, h3, ?_, ?_, h6, h7⟩
+    · simp [hc] at h4; simp [h4]
+    · intro hne; have := (h5 hne).1; simp [this] at hc
+  · -- dBegin: impossible without rwq
+    simp [h1] at hc
+  · -- dEnd
+    simp [h2] at hc
+  · -- closeWriter
+    refine ⟨h1, h2, h3, ?_, ?_, ?_, ?_⟩
+    · simpa using h4
+    · intro _; exact ⟨hc.2, rfl⟩
+    · intro hp; have := h6 hp; simp [hc.1] at this
+    · simp; simpa [hc.1] using h7
+  · -- closeEncoder
+    have hq := (h5 (by simp [hc])).1
+    refine ⟨h1, h2, ?_, ?_, ?_, ?_, ?_⟩
+    · simp [hq] at h4; simp [h3, h4]
+    · simpa using h4
+    · intro _; exact h5 (by simp [hc])
+    · intro _; left; rfl
+    · simp
+  · -- closeTransport
+    refine ⟨h1, h2, h3, ?_, ?_, ?_, ?_⟩
+    · simpa using h4
+    · intro _; exact h5 (by simp [hc])
+    · intro _; right; rfl
+    · simp; have := h7; simp [hc] at this; exact this
+
+theorem erun_invQ : ∀ (ls : List ELabel) (s s' : ESt), EInvQ s → erun s ls = some s' → EInvQ s'
+  | [], s, s', h, hr => by simp [erun] at hr; subst hr; exact h
+  | l :: ls, s, s', h, hr => by
+    simp only [erun] at hr
+    split at hr
+    · rename_i s1 h1; exact erun_invQ ls s1 s' (estep_invQ s s1 l h h1) hr
+    · cases hr
+
+/-- `encoder_discipline_partial` (hypothesis: the connection does not use `ReplyWithoutQueue`):
+in every interleaving of the queue writer and `close`, no `Encode` begins after the encoder's
+`Close` and `Close` never runs while an `Encode` is in flight; after `Close` no `Encode` is in
+flight.  (Without the hypothesis the statement is false: `rwq_close_overlaps_encode`.) -/
+theorem encoder_discipline_partial (ls : List ELabel) (s : ESt)
+    (hr : erun { rwq := false } ls = some s) :
+    s.violated = false ∧ (s.closes > 0 → s.inFlight = 0) := by
+  have h := erun_invQ ls _ s (by simp [EInvQ]) hr
+  obtain ⟨_, _, h3, h4, h5, h6, _⟩ := h
+  refine ⟨h3, ?_⟩
+  intro hp
+  have hne : s.closer ≠ .idle := by rcases h6 hp with h | h <;> simp [h]
+  simp [(h5 hne).1] at h4
+  exact h4
+
+/-- counter-witness (finding C11-2): with `ReplyWithoutQueue` a direct write is inside `Encode`
+when `close` closes the writer (no `w.mu` is held by the direct write) and then the encoder -/
+theorem rwq_close_overlaps_encode :
+    ∃ s, erun { rwq := true } [.dBegin, .closeWriter, .closeEncoder] = some s ∧
+      s.violated = true ∧ s.inFlight = 1 ∧ s.closes = 1 := by
+  exact ⟨_, rfl, by decide, by decide, by decide⟩
+
+/-! non-vacuity: a complete good run without ReplyWithoutQueue -/
+example : ∃ s, erun { rwq := false } [.qLock, .qBegin, .qEnd, .closeWriter, .closeEncoder, .closeTransport] = some s ∧
+    s.encodes = 1 ∧ s.closes = 1 ∧ s.violated = false := ⟨_, rfl, by decide, by decide, by decide⟩
+example : crun { dict := true } [.addClient, .writeReply, .push, .push] =
+    some { dict := true, inHub := true, replyWritten := true, promoted := true,
+           frames := [.connectReply false, .push true, .push true] } := by decide
+
+end CentrifugeVerif.ConnProtoEncoder
